@@ -9,11 +9,11 @@ Open Scope Z_scope.
 
 Ltac split_outcome o := destruct o as [|[|] ?s| |].
 
-Lemma callback_is_classify : forall o, gen_callback_verdict o = classify o.
-Proof. intros o. split_outcome o; reflexivity. Qed.
+Lemma callback_is_classify : forall ee o, gen_callback_verdict ee o = classify o.
+Proof. intros ee o. destruct ee; split_outcome o; reflexivity. Qed.
 
-Lemma nothing_after_shutdown : forall f, gen_callback_verdict (gen_get_solver_output true f) = NoModel.
-Proof. intros [| |o]; try reflexivity; split_outcome o; reflexivity. Qed.
+Lemma nothing_after_shutdown : forall ee f, gen_callback_verdict ee (gen_get_solver_output true f) = NoModel.
+Proof. intros ee [| |o]; destruct ee; try reflexivity; split_outcome o; reflexivity. Qed.
 
 Lemma get_solver_output_running : forall o, gen_get_solver_output false (FRes o) = o.
 Proof. intros o. split_outcome o; reflexivity. Qed.
@@ -22,18 +22,18 @@ Lemma get_solver_output_failed : forall sh, gen_get_solver_output sh FExc = OErr
 Proof. intros [|]; split; reflexivity. Qed.
 
 Lemma shutdown_only_after_valid : forall ee o,
-  gen_callback_shutdown ee o = true -> ee = true /\ gen_callback_verdict o = ValidCex.
+  gen_callback_shutdown ee o = true -> ee = true /\ gen_callback_verdict ee o = ValidCex.
 Proof. intros [|] o H; split_outcome o; cbn in H; try discriminate; split; reflexivity. Qed.
 
 Lemma valid_cex_from_complete_output :
-  forall is_shutdown killed k1 k2 core_hit is_refined out1 changes out2,
+  forall ee is_shutdown killed k1 k2 core_hit is_refined out1 changes out2,
     (killed = true -> is_shutdown = true) ->
-    handle is_shutdown killed k1 k2 core_hit is_refined out1 changes out2 = ValidCex ->
+    handle ee is_shutdown killed k1 k2 core_hit is_refined out1 changes out2 = ValidCex ->
     is_shutdown = false /\ killed = false /\
     exists s k, solve_e2e core_hit is_refined out1 changes out2 = (OSat true s, k) /\
                 contains invalid_marker s = false /\ (s = out1 \/ s = out2).
 Proof.
-  intros sh killed k1 k2 core_hit is_refined out1 changes out2 Hk H. unfold handle in H.
+  intros ee sh killed k1 k2 core_hit is_refined out1 changes out2 Hk H. unfold handle in H.
   destruct sh.
   - rewrite nothing_after_shutdown in H. discriminate.
   - destruct killed; [specialize (Hk eq_refl); discriminate|].
